@@ -39,7 +39,8 @@ def main():
             passed = set()
             for tc in ET.parse(junit).getroot().iter("testcase"):
                 if not any(c.tag in ("failure", "error", "skipped") for c in tc):
-                    passed.add(f"{tc.get('classname')}::{tc.get('name')}")
+                    # parametrised ids embed absolute paths of the checkout
+                    passed.add(f"{tc.get('classname')}::{tc.get('name')}".replace(wt + "/", "/repo/"))
             missing = sorted(stable - passed)
             out["suite_missing_from_stable"] = len(missing)
             out["suite_missing"] = missing[:10]
